@@ -83,9 +83,40 @@ def fault_cases(res, work, tier):
     return True, [], out
 
 
+def race_cases(res, work, tier):
+    """Commands that fail because another command got in between (harness/c06_race_test.go, real scheduler): the targets named
+    by the failed command are no longer probed, the targets the table still holds still are."""
+    outp = work.path("c06race.jsonl")
+    rc, out = go_test(work, ["common_test.go", "sim_test.go", "simrun_test.go", "assets_test.go", "c06_race_test.go"], "^TestVerifC06Race$",
+                      {"VERIF_OUT": outp, "VERIF_ROUNDS": "24" if tier == "quick" else "240", "GODEBUG": "", "GOGC": "100"},
+                      timeout=900, synctest=True)   # synctest only so that the shared harness files compile
+    if rc != 0 or not os.path.exists(outp):
+        return False, [], out
+    rows = read_jsonl(outp)
+    bad = [dict(r, what="a command that failed because another command got in between (real scheduler): the proxy keeps probing the targets "
+                        "the failed command named, or has stopped probing targets the table still holds",
+                replay_note="go test -run TestVerifC06Race (harness/c06_race_test.go), real scheduler, round %d" % r["round"])
+           for r in rows if r["rejected_targets_still_probed"] or r["live_targets_no_longer_probed_after_a_failed_command"]]
+    mix = {}
+    for r in rows:
+        k = "%s: %s" % (r["shape"], " ".join("%s=%s" % (c, r[c]) for c in ("remove", "deploy", "rollout_deploy") if c in r))
+        mix[k] = mix.get(k, 0) + 1
+    res.coverage["commands_failing_because_of_another_command"] = {"rounds": len(rows), "outcomes": mix,
+                                                                  "rounds_with_a_failed_command": sum(1 for r in rows if r["a_command_failed"]),
+                                                                  "bad_rounds": len(bad)}
+    return True, bad, out
+
+
+def both_extras(res, work, tier):
+    ok, bad, out = fault_cases(res, work, tier)
+    if not ok or bad:
+        return ok, bad, out
+    return race_cases(res, work, tier)
+
+
 def run(tier, seed):
     return run_property(
         "C06", tier, seed, ["C06.v", "M4link.v"], ["props/C06.vo", "props/M4link.vo"],
         profile={"deploy": 6, "deploy_fail": 9, "redeploy_same_fail": 5, "remove": 2, "restart": 1, "rollout_deploy": 3, "rollout_set": 3,
                  "rollout_stop": 1, "pause": 2, "stop": 2, "resume": 2},
-        monitor="c06_ok None h", n_quick=40, n_thorough=600, fixed=directed(), extra=fault_cases)
+        monitor="c06_ok None h", n_quick=40, n_thorough=600, fixed=directed(), extra=both_extras)
